@@ -305,7 +305,7 @@ MANIFEST_TEXT = {
         note="Trusted: Lean kernel + standard axioms; the writers model abstracts the log to its length (entry k's ancestry is 1..k, from C01/C05); atomicity of the locked sections is assumed.",
         technique="Lean 4 proof (mutex protocol invariant over all schedules) with hook-steered concurrent harness"),
     "C18": dict(
-        text="Kernel-checked: the tear-down runs at most once under any sequence of Close/Drop/other calls and later calls return; the legacy event channel shuts down from EVERY reachable state once its context ends (and is closed only after both goroutines are done); the pinned lost wake-up is proved to hang for ever (replayed with a hook before the fix: commit). Reopening with all acknowledged data is C05's theorem. The harness closes stores idle / mid-replication / after concurrent bursts, calls every operation on the closed store under a deadline, takes a goroutine census, drops one of several databases. Through the pubsubcoreapi adapter the census also counts the subscriptions of the underlying pubsub that are still open once every store is closed: before the fix: commit F39 the adapter never closed them (the node stayed on the topic; its peers saw it neither leave nor come back); the defer that closes them is regenerated from the Go text on every run.",
+        text="Kernel-checked: the tear-down runs at most once under any sequence of Close/Drop/other calls and later calls return; the legacy event channel shuts down from EVERY reachable state once its context ends (and is closed only after both goroutines are done); the pinned lost wake-up is proved to hang for ever (replayed with a hook before the fix: commit). Reopening with all acknowledged data is C05's theorem. The harness closes stores idle / mid-replication / after concurrent bursts, calls every operation on the closed store under a deadline, takes a goroutine census, drops one of several databases. Through the pubsubcoreapi adapter the census also counts the subscriptions of the underlying pubsub that are still open once every store is closed: before the fix: commit F39 the adapter never closed them (the node stayed on the topic; its peers saw it neither leave nor come back); the defer that closes them is regenerated from the Go text on every run. The buses of the instances are made with libp2p's metrics hook, which is told of every subscription added and removed: after every instance Close, and once every store is closed, nothing of the library may be left on them (finding F56, fix: commit - the instance's own listener for pubsub payloads stayed subscribed; findings F51 and F55 - legacy channels outliving Close, Close hanging mid-load mid-replication - are exhibited by the close family and a corpus scenario).",
         note="Partial by nature: goroutine termination, hangs and OS-level directory effects are runtime facts sampled by the harness (census, deadlines), not proved; Drop's scope is checked on the in-memory cache manager that stands for the leveldb directories.",
         technique="Lean 4 proof (lifecycle state machine; emitter shutdown invariant) with deadline/census-based harness"),
     "C09": dict(
